@@ -142,6 +142,10 @@ func (g *gen) handlers(depth int, sh shape) []*handler {
 	for ; n > 0 && g.budget > 0; n-- {
 		g.budget--
 		x := g.rng.Intn(100)
+		if g.rng.Chance(sh.rewriteOdds, 400) {
+			hs = append(hs, &handler{kind: 'z'}) // the real rewrite handler, strip_path_prefix
+			continue
+		}
 		if g.nNamed > 0 && g.minInv <= g.nNamed && g.rng.Chance(12, 100) {
 			// names minInv+1 … nNamed are defined, nNamed+1 is not
 			hs = append(hs, &handler{kind: 'i', arg: g.minInv + 1 + g.rng.Intn(g.nNamed+1-g.minInv)})
